@@ -122,8 +122,25 @@ def _vm_history(t, out):
 
 def _vm_seek(t, out):
     content = _s(t[0])
-    ranged = t[1][1] == "1"
-    t = [t[0]] + t[3:]
+    pb = t[1]
+    ranged = pb[1] == "1"
+    bit = lambda i: "true" if pb[i] == "1" else "false"
+    prof = "(mkProfile %s %s %s %s %s)" % tuple(bit(i) for i in range(5))
+    rest = t[3:]
+    kor = "None"
+    if rest[0] == "-":
+        rest = rest[1:]
+    else:
+        j, f = rest[0], rest[1]
+        rest = rest[2:]
+        c = {"dig-garbage": "KDigGarbage", "dig-drop": "KDigDrop", "len-inc": "KLenInc", "len-drop": "KLenDrop",
+             "type-other": "KTypeOther", "type-garbage": "KTypeGarbage", "type-drop": "KTypeDrop", "loc-drop": "KLocDrop"}.get(f)
+        if f == "dig-other":
+            c = "(KDigOther %s)" % _s(rest[0]); rest = rest[1:]
+        if f == "status":
+            c = "(KStatus %s)" % rest[0]; rest = rest[1:]
+        kor = "(Some (%s%%nat, %s))" % (j, c)
+    t = [t[0]] + rest
     head, _, out = out.partition(" | ")
     if head != ("seeker" if ranged else "noseeker"):
         return "False"
@@ -159,7 +176,8 @@ def _vm_seek(t, out):
         else:
             ov = {"err": "SErr", "closed": "SClosed"}[o]
         exp.append("(%s, %s)" % (rqs, ov))
-    return "rsc_run %s %s (rsc_open %s (len %s)) [%s] = [%s]" % (modes, content, content, content, "; ".join(ops), "; ".join(exp))
+    return "rsc_run %s (range_srv %s (@nil N) %s %s) (rsc_open %s (len %s)) [%s] = [%s]" % (
+        modes, prof, content, kor, content, content, "; ".join(ops), "; ".join(exp))
 
 
 def _vm_gram(t, out):
